@@ -46,6 +46,7 @@ CONSTANTS M,            \* slots on the ring
           NRef, NUnk,   \* objects in the binned (reference) and the unbinned (unknown) catalog
           ZCells,       \* redshift cells an object may take
           Weights,      \* weights an object may take
+          PrintEvery,   \* print the expected record of every PrintEvery-th scenario (1 = all)
           Deviations
 
 VARIABLES ref,          \* sequence of [s |-> slot, z |-> cell, w |-> weight]
@@ -200,5 +201,6 @@ Expected ==
       lost |-> \E s \in 1..NS, b \in Bins, i \in Patches, j \in Patches :
                   ~Linked(Centres, ref, unk, i, j) /\ Count(Centres, ref, unk, s, b, i, j) > 0 ]
 
-PrintScenario == PrintT(<<"scenario", Expected>>)
+ScenarioHash == SumF([k \in 1..NRef |-> Key1(ref[k]) * (k + 1)], 1..NRef) + SumF([k \in 1..NUnk |-> Key2(unk[k]) * (k + 3)], 1..NUnk)
+PrintScenario == (ScenarioHash % PrintEvery = 0) => PrintT(<<"scenario", Expected>>)
 =============================================================================
